@@ -10,6 +10,7 @@ import (
 	"os"
 	"sort"
 	"strings"
+	"time"
 
 	"github.com/codenotary/immudb/embedded/sql"
 	"github.com/codenotary/immudb/embedded/store"
@@ -105,6 +106,17 @@ func short(err error) string {
 }
 
 func (h *harness) exec(tx *sql.SQLTx, text string, args map[string]interface{}) (*sql.SQLTx, []*sql.SQLTx, error) {
+	if os.Getenv("C12_DEBUG") != "" {
+		done := make(chan struct{})
+		defer close(done)
+		go func() {
+			select {
+			case <-done:
+			case <-time.After(90 * time.Second):
+				fmt.Fprintf(os.Stderr, "STUCK for 90 s in: %s\nhistory:\n%s\n", text, strings.Join(h.log, "\n"))
+			}
+		}()
+	}
 	return h.db.Eng.Exec(context.Background(), tx, text, args)
 }
 
@@ -447,7 +459,7 @@ func (h *harness) runTx(later map[string]*[]index, allowDDL bool) {
 		t := work.tables[rapid.IntRange(0, len(work.tables)-1).Draw(rt, "table")]
 		var s *stmt
 		if allowDDL && form != "oneshot" && chance(rt, "ddlInTx", map[string]int{"auto": 14, "interactive": 6, "newtx": 6}[form]) {
-			s = h.genDDL(rt, t, later[t.name])
+			s = h.genDDL(rt, t, later[t.name], form != "auto")
 		} else {
 			s = h.genDML(rt, t, opts)
 		}
